@@ -126,6 +126,7 @@ ob("O-C04-stack-growth", ["C04"], C, "c04_stack_growth", "Stack::next growth bou
 for shape, what in (("index", "`.[k]`"), ("range", "`.[a:b]`")):
     for o, on in (("ess", "without `?`"), ("opt", "with `?`")):
         ob(f"O-C02-part-{shape}-{o}", ["C02"], C, f"c02_part_{shape}_{o}", f"one path step {what} {on}, for every value and key of an abstract container type that satisfies the ValT coherence between index / values / key_values / range: Part::paths yields the same values in the same order as Part::run, each with the input path extended by exactly one key k such that `v | .[k]` is the yielded value (getpath(path(p)) reproduces p), and Part::update calls the updating accessor of the same kind with the same arguments and the same `?` mark", [CORE + "path.rs::Part::run", CORE + "path.rs::Part::paths", CORE + "path.rs::Part::update"], kind="trait-contract")
+ob("O-C04-stack-loose", ["C04", "C03"], C, "c04_stack_loose_hint", "Stack::next with honest but inexact size hints (0, Some(remaining)): an iterator that has yielded its last element is not kept, whether or not the callback answers with a tail call", [CORE + "stack.rs::Stack::next"], label="bounded", bound="bottom stream of length 0..=2, with / without one tail call (enumerated concretely)")
 ob("O-C02-opt", ["C02"], C, "c02_opt_fail", "Opt::fail: Optional -> Ok(x) without running f, Essential -> Err(f(x))", [CORE + "path.rs::Opt::fail"], kind="contract")
 
 OBS.append(dict(id="O-C01-env", properties=["C01"], backend="verus", spec="verus/rc_list.spec.json", kind="verus", label="complete", tier="quick",
